@@ -85,7 +85,9 @@ def create_probability_distribution(
     if noise_model is None or not noise_model.processes:
         return []
 
-    dp_m_list: list[float] = []
+    # one weight per process, at the position of that process in the list (stochastic_process indexes
+    # noise_model.processes with the drawn position)
+    dp_m_list: list[float] = [0.0] * len(noise_model.processes)
 
     for site in range(state.length):
         # Shift ortho center to the right as needed (no shift for site 0)
@@ -93,7 +95,7 @@ def create_probability_distribution(
             state.shift_orthogonality_center_right(site - 1)
 
         # --- 1-site jumps at this site ---
-        for process in noise_model.processes:
+        for k, process in enumerate(noise_model.processes):
             if len(process["sites"]) == 1 and process["sites"][0] == site:
                 gamma = process["strength"]
                 jump_op = process["matrix"]
@@ -101,16 +103,16 @@ def create_probability_distribution(
                 jumped_state = copy.deepcopy(state)
                 jumped_state.tensors[site] = oe.contract("ab, bcd->acd", jump_op, state.tensors[site])
                 dp_m = dt * gamma * jumped_state.norm(site)
-                dp_m_list.append(float(dp_m.real))
+                dp_m_list[k] = float(dp_m.real)
 
         # --- 2-site jumps starting at [site, site+1] ---
         if site < state.length - 1:
-            for process in noise_model.processes:
+            for k, process in enumerate(noise_model.processes):
                 if len(process["sites"]) == 2 and process["sites"][0] == site:
                     if is_pauli(process):
                         gamma = process["strength"]
                         dp_m = dt * gamma * state.norm(site)
-                        dp_m_list.append(float(dp_m.real))
+                        dp_m_list[k] = float(dp_m.real)
 
                     elif process["sites"][1] == site + 1:
                         gamma = process["strength"]
@@ -134,7 +136,7 @@ def create_probability_distribution(
                         jumped_state.tensors[site], jumped_state.tensors[site + 1] = tensor_left_new, tensor_right_new
                         # compute the norm at `site`
 
-                        dp_m_list.append(float(dp_m.real))
+                        dp_m_list[k] = float(dp_m.real)
 
     # Normalize the probabilities
     dp: float = float(np.sum(dp_m_list))
